@@ -285,6 +285,8 @@ type vlResult struct {
 	chunks   []string
 	pending  []string
 	consumed int
+	cacheLen int // len(seq.cache.Inputs) at the end
+	prompt   int
 }
 
 // vlStart creates the Sequence the way the completion handler does (NewSequence, LoadCacheSlot, s.seqs[i] = seq);
@@ -342,6 +344,8 @@ func vlFinish(seq *Sequence, res *vlResult, removed bool) {
 	}
 	res.np = seq.numPredicted
 	res.pending = append([]string(nil), seq.pendingResponses...)
+	res.cacheLen = len(seq.cache.Inputs)
+	res.prompt = seq.numPromptInputs
 }
 
 func (v *vlServer) vlRun(out *zzverif.Out, c *vlCase) (res vlResult, err error) {
@@ -597,6 +601,23 @@ func vlL2(out *zzverif.Out, line string, stops []string, script []vlEv, res vlRe
 		if !ok {
 			out.L2("not-ended-before-stop", line, fmt.Sprintf("class=other runner=llama out=%x gen=%x", o, g))
 		}
+		// cache trimming: after a stop string the cache keeps the prompt and exactly the tokens whose text was streamed in full
+		// (stated for scripts without empty pieces: an empty piece at the cut belongs to neither side)
+		{
+			m, cum, empty := 0, 0, false
+			for _, e := range script[:res.consumed] {
+				if e.piece == "" {
+					empty = true
+				}
+				cum += len(e.piece)
+				if cum <= len(o) {
+					m++
+				}
+			}
+			if !empty && strings.HasPrefix(g, o) && res.cacheLen != res.prompt+m {
+				out.L2("cache-not-streamed-tokens", line, fmt.Sprintf("runner=llama cache=%d prompt=%d tokens_streamed_in_full=%d out=%x", res.cacheLen, res.prompt, m, o))
+			}
+		}
 		if o != g[:earliest] {
 			out.L2("stop-output-not-earliest", line, fmt.Sprintf("runner=llama out=%x want=%x", o, g[:earliest]))
 		}
@@ -798,6 +819,12 @@ func vlRunAll(t *testing.T, out *zzverif.Out, cases []*vlCase) {
 				out.Count("llama_multi_chunk")
 			}
 			vlL2(out, line, c.stops, c.script, res)
+			// cache trimming next to TruncateStop: len(seq.cache.Inputs) at removal (model: cacheLenRun / cacheKeep)
+			if res.reason != "running" {
+				t3 := strings.SplitN(line, " ", 3) // loop <pinned> <limit …>
+				out.Case(fmt.Sprintf("cachelen %s %d %s", t3[1], res.prompt, t3[2]), strconv.Itoa(res.cacheLen))
+				out.Count("llama_cachelen_cases")
+			}
 		}
 		v.close()
 		cases = cases[used:]
